@@ -239,7 +239,7 @@ func diffTrees(before, after *node) (added []string, err error) {
 			if !ok {
 				return fmt.Errorf("%q was removed", p)
 			}
-			if bc.kind != ac.kind || bc.data != ac.data || bc.exec != ac.exec || bc.target != ac.target {
+			if bc.kind != ac.kind || bc.data != ac.data || bc.exec != ac.exec || canonicalTarget(bc.target) != canonicalTarget(ac.target) {
 				return fmt.Errorf("%q was changed from %s to %s", p, bc.kind, ac.kind)
 			}
 			if bc.kind == kDir {
@@ -672,6 +672,25 @@ func TestC10NaiveBuildDirectory(t *testing.T) {
 				func(want *node) error { return rematerialise(p, want) },
 				func() (*node, error) { return readTree(p) },
 				func() { d.Close(); os.RemoveAll(p) },
+				nil
+		})
+	})
+}
+
+// TestC10VirtualBuildDirectory is hierarchy_model with the tree held by
+// the real virtual build directory.
+func TestC10VirtualBuildDirectory(t *testing.T) {
+	rec := simkit.NewRecorder(t, "C10", "hierarchy_model_virtual", "as hierarchy_model, but input root and produced tree live in the real builder.NewVirtualBuildDirectory over virtual.NewInMemoryPrepopulatedDirectory with pool-backed files, written and read back through Virtual* calls (create+write, mknod symlink/FIFO, mkdir); covers virtual_build_directory.go Lstat/Readlink/UploadFile/Mkdir. "+modelRule)
+	rapid.Check(t, func(rt *rapid.T) {
+		runModelCase(rt, rec, "virtual", func(rt *rapid.T, cas *fakeCAS, root *node) (builder.BuildDirectory, func(*node) error, func() (*node, error), func(), error) {
+			w := newVirtualWorld(cas)
+			if err := materialiseVirtual(w.top, root); err != nil {
+				return nil, nil, nil, nil, err
+			}
+			return w.bd,
+				func(want *node) error { return rematerialiseVirtual(w.top, want) },
+				func() (*node, error) { return readTreeVirtual(w.top) },
+				nil,
 				nil
 		})
 	})
